@@ -28,6 +28,17 @@ macro_rules! props {
 
 props!(c01, c02, c03, c04, c05, c06, c07, c08, c09, c10, c11, c12, c13, c14, c15, c16, c17, c18, c19, c20);
 
+pub mod c01_extra;
+
+/// Cases that the orchestrator runs in a process of their own (stream names start with
+/// "iso."), because they are expected to be able to kill the worker.
+pub fn isolated_cases(id: &str, quick: bool, seed: u64) -> Vec<(String, u64)> {
+    match id {
+        "C01" => c01::isolated_cases(quick, seed),
+        _ => vec![],
+    }
+}
+
 pub fn find(id: &str) -> Option<PropInfo> {
     all().into_iter().find(|p| p.id.eq_ignore_ascii_case(id))
 }
